@@ -93,9 +93,9 @@ def run(tier):
         raise vlib.ToolError("harness inconsistency: %d inputs, runs per input %s" %
                              (len(inputs), sorted({len(v) for v in per_input.values()})))
     with_code = [i for i, v in per_input.items() if v[0]["code"]]
-    if len(with_code) < 300:
-        raise vlib.ToolError("vacuous run: only %d inputs produced code" % len(with_code))
     viol = _validate(keep, d, "runs", res)
+    if len(with_code) < 300 and not viol:
+        raise vlib.ToolError("vacuous run: only %d inputs produced code" % len(with_code))
     res.traces = len(keep)
     res.evaluations = len(keep)
     res.distinct_nontrivial = len({src_of[i] for i in with_code})
@@ -113,6 +113,8 @@ def run(tier):
                       {"id": i, "src": src_of.get(i, ""), "runs": per_input.get(i, [])})
 
     # (3) canary: one altered hash must be flagged
+    if not with_code:
+        return {"C42": res}
     can = [dict(x) for x in per_input[with_code[0]]]
     can[-1]["code"] = "0" * 32
     tmp = vlib.PropResult("C42")
